@@ -370,6 +370,37 @@ def m_C04(run):
         # killed flag iff a kill was issued at all
         if "ST1" in evs and not run.kills:
             f.append("actor %d: on_stop(killed=true) without any kill()" % a)
+        # on_stop runs exactly when the actor ends normally: a task that returned a result after a
+        # successful on_start (no panic) must have entered on_stop
+        join = tok(run.aline(L, a), "join=")
+        if join in ("completed", "failed") and not crashed(evs, join) and "SX:ok" in evs \
+                and "ST0" not in evs and "ST1" not in evs:
+            f.append("actor %d ended (%s) without running on_stop" % (a, join))
+    f += m_C19(run)
+    return f
+
+
+def m_C19(run):
+    """on_tell_result is called exactly once after a tell's handler returned, never after an ask."""
+    f = []
+    L = run.last()
+    for a in range(run.nact):
+        evs = run.ev(L, a)
+        for i, e in enumerate(evs):
+            if not e.startswith("TR"):
+                continue
+            o = int(e[2:])
+            m = run.ops.get(o)
+            if m and m["kind"] == "ask":
+                f.append("actor %d: on_tell_result ran for ask %d" % (a, o))
+            if evs[:i].count(e) > 0:
+                f.append("actor %d: on_tell_result ran twice for %d" % (a, o))
+        for e in evs:
+            if e.startswith("HX") and not e.endswith(":panic"):
+                o = int(e[2:].split(":")[0])
+                m = run.ops.get(o)
+                if m and m["kind"] == "tell" and ("TR%d" % o) not in evs and not crashed(evs, tok(run.aline(L, a), "join=")):
+                    f.append("actor %d: handler of tell %d returned but on_tell_result never ran" % (a, o))
     return f
 
 
